@@ -13,9 +13,9 @@ from vlib import scenario, record
 from iOpt.method.listener import Listener
 
 LEVEL = "exploration"
-RULE = ("(a) ALL 16 subsets of the four base-class callbacks (classes built dynamically from Listener) x 4 batchings x N in {1,2,3}: no API call may raise, each overridden "
+RULE = ("(a) ALL 16 subsets of the four base-class callbacks (classes built dynamically from Listener: direct subclasses, two-level hierarchies, mixins before Listener, bare leaves inheriting every override) x 4 batchings x N in {1,2,3}: no API call may raise, each overridden "
         "callback must be delivered exactly as specified (once before the first trial; once per DoGlobalIteration call with exactly that call's new trials in evaluation "
-        "order; once per Solve with the returned solution), and the trial log and result must equal the listener-free run; (b) the console listener in its 3 modes and "
+        "order; once per Solve with the returned solution), and the trial log and result must equal the listener-free run; (b) the console listener in its 3 modes (also refined by a user subclass) and "
         "(c) the four painters in every documented mode (1-D painters on N=1, section/N-D painters on N=2,3), alone and combined with the console listener, with and "
         "without refinement: same non-interference comparison (painter probes of the objective are separated from trials by a forwarding proxy), and the console "
         "listener's final block is parsed from captured stdout and compared with the Solution fields. Non-trivial: every case; distinct = (kind, N, subset/mode, batching, seed index).")
@@ -108,7 +108,10 @@ def cases(tier, seed):
     return out
 
 
-def make_subset_listener(mask, events, problem):
+def make_subset_listener(mask, events, problem, shape=0):
+    """shape: how the overriding methods reach the listener's class
+       0 direct subclass of Listener; 1 two levels (an intermediate class overrides some callbacks, the leaf the others);
+       2 a mixin placed before Listener; 3 a leaf with an empty body inheriting every override from an intermediate class."""
     ns = {}
     if mask & 1:
         def BeforeMethodStart(self, method):
@@ -127,6 +130,16 @@ def make_subset_listener(mask, events, problem):
         def OnRefrash(self, searchData):
             events.append({"cb": "refresh"})
         ns["OnRefrash"] = OnRefrash
+    if shape == 1:
+        names = sorted(ns)
+        mid = type("Mid%d" % mask, (Listener,), {k: ns[k] for k in names[::2]})
+        return type("Leaf%d" % mask, (mid,), {k: ns[k] for k in names[1::2]})()
+    if shape == 2:
+        mixin = type("Mixin%d" % mask, (object,), ns)
+        return type("Mixed%d" % mask, (mixin, Listener), {})()
+    if shape == 3:
+        mid = type("Base%d" % mask, (Listener,), ns)
+        return type("Bare%d" % mask, (mid,), {})()
     return type("Partial%d" % mask, (Listener,), ns)()
 
 
@@ -238,12 +251,14 @@ def run_case(c):
     prob, _ = record.make_problem(scn, cap=scn["iters"] + 30)
     if c["kind"] == "subset":
         events = []
-        L = make_subset_listener(c["mask"], events, prob)
+        shape = (c["mask"] + c["b"] + c["idx"] // 192) % 4
+        obs["listener_class_shape_%d" % shape] = 1
+        L = make_subset_listener(c["mask"], events, prob, shape)
         try:
             t = record.run_solver(scn, listener=False, problem=prob, extra_listeners=[L], after_step=after_step)
         except Exception as e:
             import traceback
-            viol.append({"mech": "listener-makes-api-raise", "mask": c["mask"], "overrides": [CB[i] for i in range(4) if c["mask"] >> i & 1],
+            viol.append({"mech": "listener-makes-api-raise", "mask": c["mask"], "overrides": [CB[i] for i in range(4) if c["mask"] >> i & 1], "class_shape": shape,
                          "exc": repr(e), "traceback": traceback.format_exc()[-1500:]})
             return {"violations": viol, "obs": obs, "nontrivial": True, "key": "subset|%d|%d|%d|%d" % (N, c["mask"], c["b"], c["idx"])}
         compare_with_baseline(t, base, viol, "partial listener mask=%d" % c["mask"])
@@ -315,7 +330,7 @@ def run_case(c):
         k = int(rng.integers(2, 5))
         masks = [int(rng.integers(1, 16)) for _ in range(k)]
         evs = [[] for _ in range(k)]
-        Ls = [make_subset_listener(mk, ev, prob) for mk, ev in zip(masks, evs)]
+        Ls = [make_subset_listener(mk, ev, prob, int(rng.integers(4))) for mk, ev in zip(masks, evs)]
         t = record.run_solver(scn, listener=False, problem=prob, extra_listeners=Ls, after_step=after_step)
         compare_with_baseline(t, base, viol, "several partial listeners %s" % masks)
         nsolve = len([s_ for s_ in scn["pattern"] if s_[0] == "solve"])
@@ -345,14 +360,31 @@ def run_case(c):
         import matplotlib.pyplot as plt
         ls = []
         what = c["kind"]
+        # half of the runs attach the shipped listeners directly (probe calls are recognised from the call stack), the other
+        # half through the forwarding proxy (probe calls are recognised from the phase marker)
+        direct = c["idx"] % 2 == 0
+        wrap = (lambda l: l) if direct else record.ForwardingProxy
+        obs["attached_directly" if direct else "attached_through_proxy"] = 1
         if c["kind"] == "console":
-            ls.append(record.ForwardingProxy(ConsoleFullOutputListener(mode=c["mode"], iters=int(rng.integers(1, 6)))))
+            it_ = int(rng.integers(1, 6))
+            if c["b"] % 2 == 1:
+                # a user class refining the shipped console listener: one callback extended, the others inherited
+                stops = []
+
+                class RefinedConsole(ConsoleFullOutputListener):
+                    def OnMethodStop(self, searchData, solution, status):
+                        stops.append(record.snap_solution(solution))
+                        return super().OnMethodStop(searchData, solution, status)
+                ls.append(wrap(RefinedConsole(mode=c["mode"], iters=it_)))
+                obs["console_subclass_runs"] = 1
+            else:
+                ls.append(wrap(ConsoleFullOutputListener(mode=c["mode"], iters=it_)))
             what = "console:" + c["mode"]
         else:
-            ls.append(record.ForwardingProxy(make_painter(c["painter"], c["kw"], outdir, str(c["idx"]))))
+            ls.append(wrap(make_painter(c["painter"], c["kw"], outdir, str(c["idx"]))))
             what = "%s%s" % (c["painter"], c["kw"])
             if c["console"]:
-                ls.append(record.ForwardingProxy(ConsoleFullOutputListener(mode="result")))
+                ls.append(wrap(ConsoleFullOutputListener(mode="result")))
                 what += "+console"
         with warnings.catch_warnings():
             warnings.simplefilter("ignore")
@@ -390,7 +422,8 @@ def run_case(c):
 
 def finalize(obs, tier, stats):
     for k in ("before_checked", "iter_callbacks_checked", "stop_callbacks_checked", "console_reports_checked", "painter_runs", "painter_probe_calls",
-              "figures_written", "refine_runs", "multi_listener_runs", "hostile_grid_boxes", "runs_with_coincident_projected_trials"):
+              "figures_written", "refine_runs", "multi_listener_runs", "hostile_grid_boxes", "runs_with_coincident_projected_trials",
+              "listener_class_shape_0", "listener_class_shape_1", "listener_class_shape_2", "listener_class_shape_3", "console_subclass_runs", "attached_directly", "attached_through_proxy"):
         if not obs.get(k):
             return "%s never observed" % k, {}
     if len(obs.get("painter_kinds", [])) < 19:
